@@ -243,3 +243,73 @@ func VerifC20_Writers() {
 		sym.Assert(err == nil && m.files[root+"/p/pids.max"] == dec(sym.Concrete(val)), "the process limit must be written in decimal to pids.max of the group")
 	}
 }
+
+// VerifC20_V1Lifecycle: V1.New under a parent with two controllers where each controller's
+// directory for the new name may or may not pre-exist (symbolic): Destroy (and the cleanup
+// of a failing New) removes a controller directory iff this very handle created it, and a
+// handle that reports Existing()==false owns every directory it will remove.
+func VerifC20_V1Lifecycle() {
+	m := installFS()
+	for _, d := range []string{"/sys", "/sys/fs", root, root + "/cpu", root + "/memory", root + "/cpu/p", root + "/memory/p"} {
+		m.dirs[d] = true
+	}
+	parent := &V1{prefix: "p", cpu: newV1Controller(root + "/cpu/p"), memory: newV1Controller(root + "/memory/p")}
+	parent.all = []*v1controller{parent.cpu, parent.memory}
+	cpuPre, memPre := sym.Bool("cpu_dir_preexists"), sym.Bool("memory_dir_preexists")
+	if cpuPre {
+		m.dirs[root+"/cpu/p/job"] = true
+	}
+	if memPre {
+		m.dirs[root+"/memory/p/job"] = true
+	}
+	cg, err := parent.New("job")
+	sym.Assert(err == nil && cg != nil, "New must succeed")
+	if cg == nil {
+		return
+	}
+	sym.Reach("created")
+	if cpuPre && memPre {
+		sym.Assert(cg.Existing(), "a fully pre-existing group must be reported as existing")
+	}
+	if !cpuPre && !memPre {
+		sym.Assert(!cg.Existing(), "a freshly created group must be owned by its handle")
+	}
+	cg.Destroy()
+	if cpuPre {
+		sym.Assert(m.dirs[root+"/cpu/p/job"], "Destroy removed a cpu directory that existed before this handle")
+	}
+	if memPre {
+		sym.Assert(m.dirs[root+"/memory/p/job"], "Destroy removed a memory directory that existed before this handle")
+	}
+	if !cpuPre && !memPre {
+		sym.Assert(!m.dirs[root+"/cpu/p/job"] && !m.dirs[root+"/memory/p/job"], "Destroy must remove the group that this handle created")
+	}
+}
+
+// VerifC20_AddProcMany: every pid is moved by its own write(2) of exactly its decimal
+// numeral (the kernel accepts one pid per write to cgroup.procs).
+func VerifC20_AddProcMany() {
+	m := baseFS()
+	ct := &Controllers{CPU: true, Memory: true, Pids: true}
+	g := &V2{path: root + "/p", control: ct, existing: true}
+	a, b := sym.Int("pid"), 12345
+	sym.Assume(a >= 1 && a < 100)
+	err := g.AddProc(a, b)
+	sym.Assert(err == nil, "AddProc must succeed")
+	w := m.writes[root+"/p/cgroup.procs"]
+	sym.Reach("two-pids")
+	sym.Assert(len(w) == 2, "each pid needs its own write to cgroup.procs")
+	if len(w) == 2 {
+		ca, cb := sym.ConcreteInt(a), sym.ConcreteInt(b)
+		dec := func(v int) string {
+			if v >= 100 {
+				return "12345"
+			}
+			if v >= 10 {
+				return string([]byte{byte('0' + v/10), byte('0' + v%10)})
+			}
+			return string([]byte{byte('0' + v)})
+		}
+		sym.Assert(w[0] == dec(ca) && w[1] == dec(cb), "each write must be exactly the decimal pid")
+	}
+}
